@@ -48,8 +48,10 @@ func (t *ids) id(b []byte) int64 {
 
 // scenario: harness events plus, for each, the model events they correspond to
 type step struct {
-	ev  Event
-	obs Obs
+	ev           Event
+	obs          Obs
+	tickingAfter bool // the handler was running (ticker live) when the event ended
+	syncOnAfter  bool // peers were answering sync requests
 	// filled by the generator right before the event is executed: admissible orders of the
 	// model events this harness event stands for
 	model [][]string
@@ -156,7 +158,7 @@ func (c *caseRun) do(ev Event) Obs {
 		model = append(model, fmt.Sprintf("ETransition %d %s", c.r.lastTarget, grpTerm(len(w.Epochs)-1, ep, w.Me)))
 	}
 	ms := append([][]string{model}, alts...)
-	c.steps = append(c.steps, step{ev: ev, obs: o, model: ms})
+	c.steps = append(c.steps, step{ev: ev, obs: o, model: ms, tickingAfter: c.r.ticking, syncOnAfter: c.syncOn})
 	return o
 }
 
@@ -397,8 +399,28 @@ func genScenario(c *caseRun, rng *rand.Rand, steps int) {
 					sh[1] = 2
 				}
 			}
-			c.do(Event{Kind: "transition", From: sh[0], Claim: sh[1], Round: cur + 2 + uint64(rng.Intn(2)), Vacant: pickVacant(rng, sh[0], w.Me)})
+			// the new group takes over at a round that is not stored yet (the head may be one ahead of the clock)
+			first := cur
+			if head > first {
+				first = head
+			}
+			c.do(Event{Kind: "transition", From: sh[0], Claim: sh[1], Round: first + 2 + uint64(rng.Intn(2)), Vacant: pickVacant(rng, sh[0], w.Me)})
 			transitioned = true
+			continue
+		}
+		if head == cur && cur >= 1 && c.r.ticking && rng.Intn(7) == 0 {
+			// fast peers: a threshold of other members already signs the NEXT round (accepted: one round
+			// of tolerance); the node stores it ahead of its clock and the tick of that round then
+			// finds the round already stored (re-sign branch of broadcastNextPartial)
+			cnt := 0
+			for j := 0; j < n && cnt < w.Epochs[live].Thr; j++ {
+				if j == w.Me || !w.Epochs[live].IsMember(j) {
+					continue
+				}
+				c.do(Event{Kind: "part", From: j, Claim: j, Round: cur + 1, Prev: "ref", Ep: live})
+				cnt++
+			}
+			c.advance(w.Genesis + int64(cur)*w.Period - w.Now())
 			continue
 		}
 		switch x := rng.Intn(100); {
